@@ -68,23 +68,30 @@ impl<T: Config> InputQueue<T> {
         self.first_incorrect_frame
     }
 
-    /// Changes the frame delay and returns any fill inputs that were implicitly added to bridge the
-    /// gap. The caller is responsible for sending these to remote peers so they see consecutive
+    /// Changes the frame delay and returns any fill inputs that were added to bridge the gap.
+    /// The caller is responsible for sending these to remote peers so they see consecutive
     /// frame numbers.
     pub(crate) fn set_frame_delay(&mut self, delay: usize) -> Vec<PlayerInput<T::Input>> {
-        let old_delay = self.frame_delay;
         self.frame_delay = delay;
 
-        if delay <= old_delay || self.last_added_frame == NULL_FRAME {
-            return Vec::new();
-        }
+        // The next input the user submits lands on this frame. Every frame before it that is not
+        // in the queue yet is filled right away with the last known input, so that what we report
+        // to the caller is exactly what the queue holds.
+        let next_input_frame = self.last_user_frame + 1 + delay as i32;
+        let mut expected_frame = if self.first_frame {
+            0
+        } else {
+            self.last_added_frame + 1
+        };
 
-        let fill_count = delay - old_delay;
-        let fill_start = self.last_added_frame + 1;
-        let last_input = self.inputs[Self::prev_pos(self.head)];
-        (0..fill_count as i32)
-            .map(|i| PlayerInput::new(fill_start + i, last_input.input))
-            .collect()
+        let mut fills = Vec::new();
+        while expected_frame < next_input_frame {
+            let input_to_replicate = self.inputs[Self::prev_pos(self.head)];
+            self.add_input_by_frame(input_to_replicate, expected_frame);
+            fills.push(PlayerInput::new(expected_frame, input_to_replicate.input));
+            expected_frame += 1;
+        }
+        fills
     }
 
     pub(crate) fn reset_prediction(&mut self) {
